@@ -182,6 +182,16 @@ def case_strategy(draw, ctx):
         bg["mu"] = 1.5
     if draw(st.integers(0, 3)) == 0:
         bg["sigE"] = 2e3
+    # most uniform-grid scenes also contain a lossy ellipsoid in a lossy background: mask-shaped objects write
+    # conductivities through the sharding-preserving *add* path (on top of a non-zero prior), which boxes never use
+    if grid.get("kind", "uniform") == "uniform" and draw(st.integers(0, 4)) > 0:
+        lo = [draw(st.integers(0, shape[a] - 4)) for a in range(3)]
+        size = [2 * draw(st.integers(1, min(3, (shape[a] - lo[a]) // 2))) for a in range(3)]
+        if not any(lo[a] <= p < lo[a] + size[a] for a, p in planes):
+            objects.append({"name": "ball", "sphere": True, "lo": lo, "hi": [lo[a] + size[a] for a in range(3)],
+                            "material": {"eps": draw(st.sampled_from([2.0, 4.0])), "sigE": draw(st.sampled_from([4e3, 1e4]))},
+                            "order": 5})
+            bg["sigE"] = 2e3
     dets = []
     kinds = [draw(st.sampled_from(("energy", "poynting"))), draw(st.sampled_from(("field", "phasor")))]
     if draw(st.booleans()):
